@@ -133,7 +133,12 @@ ExpCasesFor(ctx, termOut, xn, ssh, sch, allMaps, pre) ==
       snks == {sub.nodes[j].name : j \in Terminals(ssh)}
       omaps == IF allMaps THEN [xout -> snks] ELSE {f \in [xout -> snks] : \A o1, o2 \in xout : o1 # o2 => f[o1] # f[o2]}
       imaps == IF xin = {} THEN {<<>>} ELSE [srcs -> xin]
-  IN  {[op |-> "expand", pre |-> pre, g |-> g, x |-> x, sub |-> sub, imapNone |-> FALSE, imap |-> PairsOf(im), omapNone |-> FALSE, omap |-> PairsOf(om)] :
+      \* partial output maps: any proper subset of the outputs is mapped, the others fall back to the sink of the same name
+      pomaps == UNION {[D -> snks] : D \in {D \in SUBSET xout : D # xout /\ (xout \ D) \subseteq snks}}
+  IN  {[op |-> "expand", pre |-> pre, g |-> g, x |-> x, sub |-> sub, imapNone |-> TRUE, imap |-> <<>>, omapNone |-> FALSE, omap |-> PairsOf(om)] :
+          om \in pomaps}
+      \cup
+      {[op |-> "expand", pre |-> pre, g |-> g, x |-> x, sub |-> sub, imapNone |-> FALSE, imap |-> PairsOf(im), omapNone |-> FALSE, omap |-> PairsOf(om)] :
           im \in imaps, om \in omaps}
       \cup (IF xout \subseteq snks
             THEN {[op |-> "expand", pre |-> pre, g |-> g, x |-> x, sub |-> sub, imapNone |-> TRUE, imap |-> <<>>, omapNone |-> TRUE, omap |-> <<>>]}
